@@ -65,6 +65,22 @@ def _int_branch_returns_element(fn):
     return False
 
 
+def deep_copy_clause(ctx, rel, qual, what):
+    """copy() returns copy.deepcopy(self).  Evidence of a violation: a shallow copy (copy.copy / dict(...) / list(...) /
+    slicing of a field, or self itself) reaches the returned object; anything else that is not the deep copy is a form."""
+    from ..flowexpr import paths
+    fn = ctx.fn(rel, qual)
+    rets = [norm(e.resolved) for q in paths(fn) for e in q.events if e.kind == "return" and e.resolved is not None]
+    shallow = sorted({norm(c)[:60] for c in ast.walk(fn) if isinstance(c, ast.Call) and (dotted_name(c.func) in ("copy.copy", "copy") or
+                                                                                          (isinstance(c.func, ast.Attribute) and c.func.attr == "__copy__"))})
+    if rets and all(r == "copy.deepcopy(self)" for r in rets):
+        ctx.holds(rel, qual, what)
+    elif shallow or any(r == "self" for r in rets):
+        ctx.violated(rel, qual, what, detail={"returns": rets[:2], "shallow copies": shallow}, expected="return copy.deepcopy(self)")
+    else:
+        ctx.form(False, rel, qual, what, detail=rets[:2])
+
+
 def r2_base_untouched(ctx):
     for q in ("DIP.parse", "DIP.parse_docs"):
         fn = ctx.fn(DIP, q)
@@ -84,13 +100,11 @@ def r2_base_untouched(ctx):
         others = [norm(n)[:60] for n in ast.walk(fn) if isinstance(n, ast.Attribute) and dotted_name(n) == "self.env" and
                   not (isinstance(n._parent, ast.Attribute) and n._parent.attr == "copy")]
         ctx.check(not others, DIP, q, "self.env is only copied, never handed out or read piecewise during parsing", detail=others or None)
-    e = ctx.fn(ENV, "Environment.copy")
-    ctx.check([norm(s) for s in K.body_nodoc(e)] == ["return copy.deepcopy(self)"], ENV, "Environment.copy", "the environment copy is deep",
-              detail=[norm(s) for s in K.body_nodoc(e)])
+    deep_copy_clause(ctx, ENV, "Environment.copy", "the environment copy is deep")
     sn = ctx.fn(ND + "node_source.py", "SourceNode.parse")
     ctx.form("p.env.sources = env.sources.copy()" in norm(sn), ND + "node_source.py", "SourceNode.parse", "a remote DIP source is parsed on a copy of the source list")
     sl = ctx.fn("src/scinumtools/dip/lists/list_sources.py", "SourceList.copy")
-    ctx.check([norm(s) for s in K.body_nodoc(sl)] == ["return copy.deepcopy(self)"], "src/scinumtools/dip/lists/list_sources.py", "SourceList.copy", "the source-list copy is deep")
+    deep_copy_clause(ctx, "src/scinumtools/dip/lists/list_sources.py", "SourceList.copy", "the source-list copy is deep")
 
 
 def r3_count(ctx):
